@@ -131,6 +131,16 @@ func vdGuard(f func()) (panicked string, alloc uint64, dur time.Duration) {
 const vdAllocC = 1024
 const vdAllocSlack = 65536
 
+// vdClassKey: histogram key of an input class (sweep inputs are grouped per field).
+func vdClassKey(c string) string {
+	if strings.HasPrefix(c, "sweep-") {
+		if i := strings.Index(c, "="); i > 0 {
+			return c[:i]
+		}
+	}
+	return c
+}
+
 func vdPanicSite(p string) string {
 	switch {
 	case strings.Contains(p, "makeslice"):
@@ -970,6 +980,79 @@ func c34Corpus() []c34Case {
 	}
 }
 
+// c34Sweep: deterministic sweep - every length/count varint field of a well-formed record
+// (record length, timestamp delta, offset delta, key length, value length, header count, each
+// header's key length and value length), one at a time, replaced by each of
+// {-1, -2, -7, -2^31, -2^62, 0, original+1, 2^31-1, 2^62}; the enclosing record length is
+// recomputed so the decoder reaches the field. Plus the batch-level int32 fields numRecords
+// and batchLength. The first record of a 2-record batch is the hostile one. Every segment
+// goes through NewRecordBatchFromBytes + BuildSegment. Runs in the quick tier.
+func c34Sweep() []c34Case {
+	ts := int64(1700000000000)
+	key, val := []byte("key"), []byte("value")
+	hk := [][]byte{[]byte("hk1"), []byte("h2")}
+	hv := [][]byte{[]byte("hv1"), []byte("x")}
+	names := []string{"record-length", "ts-delta", "offset-delta", "key-length", "value-length", "header-count",
+		"header1-key-length", "header1-value-length", "header2-key-length", "header2-value-length"}
+	orig := []int64{0, 5, 0, int64(len(key)), int64(len(val)), 2, int64(len(hk[0])), int64(len(hv[0])), int64(len(hk[1])), int64(len(hv[1]))}
+	build := func(idx int, v int64) []byte {
+		f := append([]int64(nil), orig...)
+		if idx > 0 {
+			f[idx] = v
+		}
+		body := []byte{0}
+		body = append(body, vdVarint(f[1])...)
+		body = append(body, vdVarint(f[2])...)
+		body = append(append(body, vdVarint(f[3])...), key...)
+		body = append(append(body, vdVarint(f[4])...), val...)
+		body = append(body, vdVarint(f[5])...)
+		for h := 0; h < 2; h++ {
+			body = append(append(body, vdVarint(f[6+2*h])...), hk[h]...)
+			body = append(append(body, vdVarint(f[7+2*h])...), hv[h]...)
+		}
+		l := int64(len(body))
+		if idx == 0 {
+			if v == 1<<60 { // marker for "original+1"
+				l++
+			} else {
+				l = v
+			}
+		}
+		return append(vdVarint(l), body...)
+	}
+	valid := build(-1, 0)
+	values := []int64{-1, -2, -7, -(1 << 31), -(1 << 62), 0, 1 << 60 /* original+1 */, 1<<31 - 1, 1 << 62}
+	var out []c34Case
+	for idx, name := range names {
+		for _, v := range values {
+			vv, label := v, fmt.Sprint(v)
+			if v == 1<<60 {
+				label = "orig+1"
+				if idx > 0 {
+					vv = orig[idx] + 1
+				}
+			}
+			recs := append(build(idx, vv), valid...)
+			out = append(out, c34Case{"sweep-" + name + "=" + label, "segment", c34Segment(c34RawBatch(5, 2, ts, ts+10, recs))})
+		}
+	}
+	// batch-level int32 fields
+	recs := append(append([]byte(nil), valid...), valid...)
+	for _, fld := range []struct {
+		name string
+		off  int
+	}{{"num-records", 57}, {"batch-length", 8}} {
+		raw0 := c34RawBatch(5, 2, ts, ts+10, recs)
+		o := int64(int32(binary.BigEndian.Uint32(raw0[fld.off : fld.off+4])))
+		for _, v := range []int64{-1, -2, -7, -(1 << 31), 0, o + 1, 1<<31 - 1} {
+			raw := append([]byte(nil), raw0...)
+			binary.BigEndian.PutUint32(raw[fld.off:fld.off+4], uint32(int32(v)))
+			out = append(out, c34Case{fmt.Sprintf("sweep-%s=%d", fld.name, v), "segment", c34Segment(raw, c34ValidFrame(vNewRand(7), 20, ts+5))})
+		}
+	}
+	return out
+}
+
 func c34Gen(r *vRand) c34Case {
 	ts := int64(1700000000000)
 	valid := func() []byte {
@@ -1049,7 +1132,7 @@ func TestVerifC34Storage(t *testing.T) {
 		canon, _ := json.Marshal(cs)
 		id := len(inputs)
 		inputs = append(inputs, vdInput{ID: id, Class: cs.Class, Kind: cs.Kind, Data: cs.Data, Case: cs})
-		rep.Hist("class=" + cs.Class)
+		rep.Hist("class=" + vdClassKey(cs.Class))
 		emitIdx := 0
 		check := func(name, kind, obs, pan string, alloc uint64, dur time.Duration, cutoff int64) {
 			if pan != "" {
@@ -1152,6 +1235,9 @@ func TestVerifC34Storage(t *testing.T) {
 		runOne(cs)
 	} else {
 		for _, cs := range c34Corpus() {
+			runOne(cs)
+		}
+		for _, cs := range c34Sweep() {
 			runOne(cs)
 		}
 		r := vNewRand(vSeed())
